@@ -22,6 +22,8 @@ pub trait OrdColl: Sized {
     const IS_SET: bool;
     /// values are bare keys (SetTree<i32, i32> with the library's own KeyValue impl): payload == key
     const PLAIN: bool = false;
+    /// the payload type counts its instances (inst::Cnt): dropping the collection must leave none
+    const COUNTED: bool = false;
     fn name() -> String;
     fn make(cap: usize) -> Self;
     fn is_empty(&self) -> bool;
@@ -111,6 +113,7 @@ fn canon_of(nodes: &[CNode], root: u32, nfree: usize) -> String {
 
 // ---- MapTree ------------------------------------------------------------------------------
 impl<P: Payload> OrdColl for MapTree<OKey, P> {
+    const COUNTED: bool = P::COUNTED;
     const KIND: &'static str = "MapTree";
     const HAS_SNAP: bool = true;
     const IS_SET: bool = false;
@@ -199,6 +202,7 @@ impl<P: Payload> OrdColl for MapTree<OKey, P> {
 
 // ---- MapList ------------------------------------------------------------------------------
 impl<P: Payload> OrdColl for MapList<OKey, P> {
+    const COUNTED: bool = P::COUNTED;
     const KIND: &'static str = "MapList";
     const HAS_SNAP: bool = false;
     const IS_SET: bool = false;
@@ -254,6 +258,7 @@ impl<P: Payload> OrdColl for MapList<OKey, P> {
 
 // ---- SetTree ------------------------------------------------------------------------------
 impl<P: Payload> OrdColl for SetTree<OKey, PV<P>> {
+    const COUNTED: bool = P::COUNTED;
     const KIND: &'static str = "SetTree";
     const HAS_SNAP: bool = true;
     const IS_SET: bool = true;
@@ -428,6 +433,7 @@ impl OrdColl for SetTree<i32, i32> {
 
 // ---- SetList ------------------------------------------------------------------------------
 impl<P: Payload> OrdColl for SetList<PV<P>> {
+    const COUNTED: bool = P::COUNTED;
     const KIND: &'static str = "SetList";
     const HAS_SNAP: bool = false;
     const IS_SET: bool = true;
@@ -648,9 +654,25 @@ impl<'a, C: OrdColl> OrdSession<'a, C> {
             snap
         ));
     }
+    /// replaces the instance by `new` and drops the old one under observation; with an instance-counting
+    /// payload the number of payload instances the old collection leaves behind is logged (must be 0)
+    fn swap_and_drop(&mut self, new: C, own: i64) {
+        let old = std::mem::replace(&mut self.c, new);
+        if !C::COUNTED {
+            drop(old);
+            return;
+        }
+        self.tr.pre("\"op\":\"drop\",\"out\":\"aborted\"");
+        let o = observe(0, move || drop(old));
+        let residue = inst::live() - own;
+        self.tr.line(&format!("\"ev\":\"op\",\"op\":\"drop\",\"residue\":{},{}", residue, out_fields(&o)));
+    }
     pub fn reset(&mut self, cap: usize) {
         self.cap = cap;
-        self.c = make_observed::<C>(self.tr, cap);
+        let before = inst::live();
+        let new = make_observed::<C>(self.tr, cap);
+        let own = inst::live() - before;
+        self.swap_and_drop(new, own);
         self.mine.clear();
         self.dead = false;
         self.log_reset();
@@ -1532,6 +1554,9 @@ pub fn run_scale<C: OrdColl>(tr: &mut Trace, plan: &[(i32, i32)], seed: u64, ful
             s.walks();
         }
     }
+    if C::COUNTED {
+        s.reset(0); // the last instance is dropped under observation, too
+    }
 }
 
 pub struct RandCfg {
@@ -1674,6 +1699,9 @@ pub fn run_random<C: OrdColl>(tr: &mut Trace, cfg: &RandCfg) {
                 }
             }
         }
+    }
+    if C::COUNTED {
+        s.reset(0); // the last instance is dropped under observation, too
     }
 }
 
